@@ -32,16 +32,29 @@
                             It is doubly exponential in the number of alternatives; the correspondence runs it for
                             m <= 6 alternatives and n <= 12 distinct orders (below 1 s per profile; m = 7 can take
                             minutes).
-   What is NOT proved: anything about the implementation's own algorithm (single-crossing precheck, colouring, LP
-   through CBC, placement of the grey alternatives are not mirrored). The implementation is tied to the theorems
-   by the correspondence only: its verdict is compared with eucl_decide on every generated profile with m <= 6,
-   n <= 12; its True answers are run through eucl_check at every size; beyond those sizes verdicts are checked on
-   planted embeddings only (planted_sound). Status of /repo: the storage-order dependence, the single-order
-   ValueError and the order of the first grey group were repaired (5a8bee2, 3211aad, 4ca33bd; corpus/C19);
-   one open known finding remains (KF-C19-b: maps that misplace or omit grey alternatives of later F/G groups). *)
+     * eucl_algo_sound    : the MIRROR of is_one_euclidean (Model/EuclidAlgo.v: single-crossing precheck through the proved
+                            mirror sc_algo, v_1 / v_n from the returned sequence, single-order shortcut, colouring
+                            loop with its failure exit, axis from the counts, LP as a parameter, runs F_1 G_1 F_2 ...
+                            of v_1, placement with the bands 8*i*delta) is SOUND for every LP oracle whose answers
+                            satisfy the mirrored constraints: if it answers (True, y) then eucl_check accepts y.
+                            The proof is the band argument: every voter is within delta of F_1, in [6,8)*delta
+                            of G_1, in (8i, 8i+1]*delta of F_{i+1}, in [8i+6, 8i+8)*delta of G_{i+1}; grey
+                            alternatives are ranked alike by all voters; later coloured alternatives lie outside
+                            the span of the voters and F_1, so pushing them outwards keeps every voter's order.
+       eucl_algo_exact_sound : the same for the extracted instance (exact Fourier-Motzkin point, re-checked), no hypothesis.
+       eucl_algo_no_error : the mirror raises nothing on well-formed non-empty profiles.
+       eucl_algo_complete_partial : PARTIAL completeness — a 1-Euclidean profile passes the single-crossing precheck
+                            (sc_algo_complete); that the colouring cannot fail and that the LP on the constructed
+                            axis is feasible (the Elkind-Faliszewski correctness argument) is NOT formalised.
+   What is NOT proved: completeness of the mirrored algorithm (above), and that the implementation equals the mirror: it is
+   tied to the theorems by the correspondence only: its verdict is compared with eucl_decide and with the extracted
+   mirror on every generated profile with m <= 6, n <= 12; its True answers are run through eucl_check at every
+   size; beyond those sizes verdicts are checked on planted embeddings only (planted_sound). CBC (floats) is replaced
+   by an exact LP oracle in the mirror. Status of /repo: four defects found by this check were repaired (5a8bee2,
+   3211aad, 4ca33bd, 74e9e2c; corpus/C19); no open finding. *)
 From Coq Require Import List NArith ZArith QArith Qabs Bool Permutation Sorted.
-From PrefVerif Require Import Lib.Contig Model.SP Model.SC Model.Euclid Model.EuclidLP
-                              Proofs.SP Proofs.SC Proofs.Euclid Proofs.EuclidLP.
+From PrefVerif Require Import Lib.Val Lib.Contig Model.SP Model.SC Model.SCAlgo Model.Euclid Model.EuclidLP Model.EuclidAlgo
+                              Proofs.SP Proofs.SC Proofs.Euclid Proofs.EuclidLP Proofs.EuclidAlgo.
 Import ListNotations.
 Open Scope Q_scope.
 
@@ -164,6 +177,47 @@ Theorem eucl_decide_correct : forall alts profile,
 Proof. exact Proofs.EuclidLP.eucl_decide_correct. Qed.
 Print Assumptions eucl_decide_correct.
 
+(* ---- the mirror of is_one_euclidean -------------------------------------------------------------------------- *)
+Theorem eucl_algo_sound :
+  forall lp_solve : list (list N) -> list N -> option (list Q * list (N * Q)),
+  (* the LP oracle: a returned point satisfies the constraints of _one_euclidean_solve_lp (times 2) *)
+  (forall prefs axis vs xs, lp_solve prefs axis = Some (vs, xs) ->
+     Forall (fun ab => posf xs (fst ab) + 1 <= posf xs (snd ab)) (ordered_pairs axis) /\
+     Forall2 (fun p r => Forall (fun ab => if before r (fst ab) (snd ab)
+                                           then 2 * p + 2 <= posf xs (fst ab) + posf xs (snd ab)
+                                           else posf xs (fst ab) + posf xs (snd ab) + 2 <= 2 * p)
+                                (ordered_pairs axis)) vs prefs) ->
+  forall alts orders vs xs,
+  NoDup alts /\ NoDup orders /\ Forall (fun o => Permutation alts o) orders ->
+  eucl_algo lp_solve alts orders = Ok (Some (vs, xs)) -> eucl_check alts orders vs xs = true.
+Proof. exact Proofs.EuclidAlgo.eucl_algo_sound. Qed.
+Print Assumptions eucl_algo_sound.
+
+Theorem eucl_algo_exact_sound : forall alts orders vs xs,
+  NoDup alts /\ NoDup orders /\ Forall (fun o => Permutation alts o) orders ->
+  eucl_algo_exact alts orders = Ok (Some (vs, xs)) ->
+  eucl_check alts orders vs xs = true /\ Euclidean orders /\ eucl_decide alts orders = true.
+Proof.
+  intros alts orders vs xs Hwf H. split; [exact (Proofs.EuclidAlgo.eucl_algo_exact_sound alts orders vs xs Hwf H)|].
+  exact (Proofs.EuclidAlgo.eucl_algo_exact_euclidean alts orders vs xs Hwf H).
+Qed.
+Print Assumptions eucl_algo_exact_sound.
+
+Theorem eucl_algo_no_error : forall lp alts orders,
+  NoDup alts /\ NoDup orders /\ Forall (fun o => Permutation alts o) orders -> orders <> [] -> alts <> [] ->
+  forall e, eucl_algo lp alts orders <> Err e.
+Proof. exact Proofs.EuclidAlgo.eucl_algo_no_error. Qed.
+Print Assumptions eucl_algo_no_error.
+
+(* PARTIAL: full statement wanted:  Euclidean orders -> exists y, eucl_algo lp alts orders = Ok (Some y)  for an LP
+   oracle that answers None only on infeasible systems.  Proved: the precheck passes; the mirror can then answer
+   False only through the colouring exit or an infeasible LP on the constructed axis. *)
+Theorem eucl_algo_complete_partial : forall alts orders,
+  NoDup alts /\ NoDup orders /\ Forall (fun o => Permutation alts o) orders -> Euclidean orders ->
+  exists sc_order, sc_algo alts orders = Ok (Some sc_order).
+Proof. exact Proofs.EuclidAlgo.eucl_algo_complete_partial. Qed.
+Print Assumptions eucl_algo_complete_partial.
+
 (* ---- non-vacuity ------------------------------------------------------------------------------------------ *)
 (* a 1-Euclidean profile with its embedding: alternatives 1,2,3 at 0,4,10; voters at 1, 3, 8 *)
 Example euclidean_example :
@@ -218,3 +272,20 @@ Example decide_examples :
   (let alts := [1;2;3;4;5;6]%N in let p := [[3;2;4;5;6;1]; [5;4;3;2;6;1]; [3;2;1;4;5;6]]%N in
    eucl_refuted alts p = false /\ eucl_decide alts p = false).
 Proof. repeat split; vm_compute; reflexivity. Qed.
+
+(* the extracted mirror on the inputs of the repaired defects: a single order; first and last stored ballots not
+   the ends of the single-crossing order; a grey alternative (2) ranked above coloured ones (3, 4) *)
+Example algo_examples :
+  (exists y, eucl_algo_exact [1;2;3]%N [[2;1;3]]%N = Ok (Some y) /\ eucl_check [1;2;3]%N [[2;1;3]]%N (fst y) (snd y) = true) /\
+  (exists y, eucl_algo_exact [1;2;3]%N [[3;1;2]; [2;1;3]; [1;3;2]]%N = Ok (Some y)
+             /\ eucl_check [1;2;3]%N [[3;1;2]; [2;1;3]; [1;3;2]]%N (fst y) (snd y) = true) /\
+  (exists y, eucl_algo_exact [1;2;3;4]%N [[1;2;3;4]; [1;2;4;3]]%N = Ok (Some y)
+             /\ eucl_check [1;2;3;4]%N [[1;2;3;4]; [1;2;4;3]]%N (fst y) (snd y) = true) /\
+  eucl_algo_exact [1;2;3;4]%N [[1;3;2;4]; [4;3;2;1]; [3;1;2;4]]%N = Ok None.
+Proof.
+  split; [|split; [|split]].
+  - eexists. split; [vm_compute; reflexivity|vm_compute; reflexivity].
+  - eexists. split; [vm_compute; reflexivity|vm_compute; reflexivity].
+  - eexists. split; [vm_compute; reflexivity|vm_compute; reflexivity].
+  - vm_compute; reflexivity.
+Qed.
